@@ -4,7 +4,7 @@ import numpy as np
 from harness import common as C
 from harness import eofgen as G
 
-ANCHORS = ["T3", "T3b", "T5eof", "T7inplace", "T7hist"]
+ANCHORS = ["T3", "T3b", "T5eof", "T7inplace", "T7hist", "T9text"]
 MODELS = ["EofCase"]
 RULE = ("structured random configurations: class x shape (tall/wide/square/one feature) x spectrum (random, geometric, repeated, "
         "rank-deficient, clustered) x scale 1e-8..1e8 x flags x weights x solver x k in 1..rank; a case is non-trivial when the "
